@@ -40,3 +40,11 @@ Definition check (c : case) : N :=
           else if negb (kres_equiv impl (key_signature (c_default c) (c_others c))) then 2 else 0
       end
   end.
+
+(** final value of one key in one locale after the whole pipeline: the count keys (and kinds) of its Ranges / Plurals
+    nodes against those of the resolved source description. 0 same set; 3 different *)
+Definition rop_pair_eqb (a b : key * rop) : bool := (fst a =? fst b) && rop_eqb (snd a) (snd b).
+Definition check_counts (c : pv * list (key * rop)) : N :=
+  let '(v, impl) := c in
+  let m := count_keys v in
+  if forallb (fun x => existsb (rop_pair_eqb x) impl) m && forallb (fun x => existsb (rop_pair_eqb x) m) impl then 0 else 3.
